@@ -7,7 +7,7 @@ return (never loop).
 """
 from __future__ import annotations
 
-from sim.kernel import StepBudgetExceeded
+from sim.kernel import KnownStop, StepBudgetExceeded
 from sim.rng import Stream
 from sim.terms import XSD, T, key, skey, tkey, u
 
@@ -30,7 +30,10 @@ ASSUMPTIONS = [
     "an empty list is a head node that carries no rdf:first/rdf:rest triple",
 ]
 PROBES = ["delete-head", "delete-only", "delete-last", "delete-middle", "falsy-member-read", "index-one-past", "append-after-clear", "fault-cycle", "fault-no-rest", "fault-two-rests", "fault-no-first", "duplicate-member"]
-KNOWN_PREDICATES = {}
+KNOWN_PREDICATES = {
+    # c[len(c)] = v does not raise: it writes (rdf:nil rdf:first v) (or, on an empty list, a head cell without rdf:rest)
+    "C19-setitem-one-past-the-end-writes": lambda f: f.get("i") == f.get("n") and f.get("raised") is False,
+}
 READ_BUDGET = 60000
 
 RDFNS = "http://www.w3.org/1999/02/22-rdf-syntax-ns#"
@@ -91,8 +94,13 @@ def generate(seed, tier):
             op["vs"] = [g.pick(vals) for _ in range(g.randint(0, 3))]
             n += len(op["vs"])
         elif kind == "set":
-            op["i"] = g.randint(0, n)
+            # one-past-the-end assignment is a listed known finding that corrupts the graph and ends the run: keep it rare
             op["v"] = g.pick(vals)
+            if n == 0 and not g.chance(0.1):
+                op["k"] = "append"
+                n += 1
+            else:
+                op["i"] = n if (n == 0 or g.chance(0.06)) else g.randrange(n)
         elif kind == "del":
             op["i"] = g.choice([0, 0, max(n - 1, 0), n] + list(range(n + 1)))
             if op["i"] < n:
@@ -271,7 +279,9 @@ def execute(trace, ctx):
             except Exception as e:
                 got_err = e
             if exp_err:
-                ctx.check(isinstance(got_err, IndexError), "C19.setitem-indexerror", lambda: f"c[{i}] = v on a list of length {n}: expected IndexError, got {type(got_err).__name__ if got_err else 'no exception'}", i=i, n=n)
+                r = ctx.check(isinstance(got_err, IndexError), "C19.setitem-indexerror", lambda: f"c[{i}] = v on a list of length {n}: expected IndexError, got {type(got_err).__name__ if got_err else 'no exception'}", i=i, n=n, raised=got_err is not None)
+                if r == "known":
+                    raise KnownStop()  # the graph now carries (rdf:nil rdf:first v) or a head without rdf:rest: state is corrupted, the run ends here
             else:
                 ctx.check(got_err is None, "C19.setitem-raised", lambda: f"c[{i}] = v on a list of length {n} raised {type(got_err).__name__}: {got_err}")
                 model[i] = skey(op["v"])
